@@ -16,7 +16,9 @@ CONSTANTS Threads, Inputs, MaxObjs, MaxCalls,
           BugAccessorMutates, \* an accessor pops an entry of the object's metric map
           BugJsonAlias,       \* as_json returns an internal dictionary by reference
           BugEntryPointWritesTables, \* an entry point (interactive builder / calculator main) edits a shared constant table
-          BugCopyDiffers      \* a copy of an object is rebuilt from something other than the object's input
+          BugCopyDiffers,     \* a copy of an object is rebuilt from something other than the object's input
+          BugMemoPublishedEarly,  \* an accessor keeps a per-object memo and publishes it before it is complete
+          BugCacheIgnoresContext  \* a module-level cache keeps what was computed under a caller's low-precision decimal context
 Accessors == {"scores","severities","clean","clean_np","rh","tv","ev","json_uf","json_um","json_sf","json_sm","eq_self","hash","mutate_json","internals"}
 Pipeline == <<"parse","mandatory","fill","base","temporal","env">>
 \* abstract pure functions of an input i = <<kind, prefix, body>> ------------------------------
@@ -34,16 +36,21 @@ VARIABLES heap,      \* sequence of finished objects [in, filled, scores, json (
           globals,   \* digest of module tables, decimal context, sys.path, warning filters
           out,       \* bytes written to stdout / stderr by library calls
           last,      \* observation of the last completed public call
-          ncalls
-vars == <<heap, thr, shared, cache, globals, out, last, ncalls>>
+          ncalls,
+          memo,      \* per object: <<"none">>, <<"full">> or <<"partial", filler>> (used by the buggy variant only: the real objects keep no memo)
+          inacc,     \* per thread: the accessor call it is in the middle of, <<object, accessor>> or <<>>
+          poisoned   \* inputs whose cached result was computed under a low-precision context (buggy variant only)
+xvars == <<memo, inacc, poisoned>>
+vars == <<heap, thr, shared, cache, globals, out, last, ncalls, memo, inacc, poisoned>>
 Idle == [pc |-> 0, in |-> <<>>, scratch |-> <<>>, scores |-> <<>>]
+XInit == memo = [o \in 1..MaxObjs |-> <<"none">>] /\ inacc = [t \in Threads |-> <<>>] /\ poisoned = {}
 Init == /\ heap = <<>> /\ thr = [t \in Threads |-> Idle] /\ shared = <<>> /\ cache = <<>>
-        /\ globals = "G0" /\ out = 0 /\ last = <<>> /\ ncalls = 0
+        /\ globals = "G0" /\ out = 0 /\ last = <<>> /\ ncalls = 0 /\ XInit
 Scratch(t) == IF BugSharedScratch THEN shared ELSE thr[t].scratch
 WithScratch(t, v, f) == IF BugSharedScratch THEN shared' = v /\ thr' = [thr EXCEPT ![t] = f]
                         ELSE thr' = [thr EXCEPT ![t] = [f EXCEPT !.scratch = v]] /\ UNCHANGED shared
 \* ---- construction, one action per pipeline method ---------------------------------------------
-Begin(t, i) == /\ thr[t].pc = 0 /\ Len(heap) + Cardinality({u \in Threads : thr[u].pc # 0}) < MaxObjs /\ ncalls < MaxCalls
+Begin(t, i) == /\ thr[t].pc = 0 /\ inacc[t] = <<>> /\ Len(heap) + Cardinality({u \in Threads : thr[u].pc # 0}) < MaxObjs /\ ncalls < MaxCalls
                /\ thr' = [thr EXCEPT ![t] = [pc |-> 1, in |-> i, scratch |-> <<>>, scores |-> <<>>]]
                /\ ncalls' = ncalls + 1 /\ UNCHANGED <<heap, shared, cache, globals, out, last>>
 StepParse(t) == /\ thr[t].pc = 1
@@ -58,7 +65,7 @@ StepFill(t) == thr[t].pc = 3 /\ WithScratch(t, Filled(Scratch(t)), [thr[t] EXCEP
 StepScore(t, k) == /\ thr[t].pc = k /\ k \in 4..6
                    /\ LET key == <<CacheKey(thr[t].in), k>>
                           hit == {j \in 1..Len(cache) : cache[j][1] = key}
-                          sc == IF BugCache /\ hit # {} THEN cache[CHOOSE j \in hit : TRUE][2] ELSE Scored(Scratch(t), k)
+                          sc == IF thr[t].in \in poisoned THEN <<"imprecise", k>> ELSE IF BugCache /\ hit # {} THEN cache[CHOOSE j \in hit : TRUE][2] ELSE Scored(Scratch(t), k)
                       IN /\ cache' = IF BugCache /\ hit = {} THEN Append(cache, <<key, sc>>) ELSE cache
                          /\ IF k < 6 THEN thr' = [thr EXCEPT ![t].pc = k + 1, ![t].scores = Append(thr[t].scores, sc)] /\ UNCHANGED <<heap, last>>
                             ELSE /\ heap' = Append(heap, [in |-> thr[t].in, filled |-> Scratch(t), scores |-> Append(thr[t].scores, sc), json |-> "fresh"])
@@ -86,11 +93,42 @@ EntryPoint(kind) == /\ kind \in EntryPoints /\ ncalls < MaxCalls
 Copy(o) == /\ o \in 1..Len(heap) /\ Len(heap) < MaxObjs /\ ncalls < MaxCalls
            /\ heap' = Append(heap, IF BugCopyDiffers THEN [heap[o] EXCEPT !.filled = <<"rebuilt">>] ELSE heap[o])
            /\ last' = <<"copy", o>> /\ ncalls' = ncalls + 1 /\ UNCHANGED <<thr, shared, cache, globals, out>>
-Next == \/ \E t \in Threads, i \in Inputs : Begin(t, i)
-        \/ \E kind \in EntryPoints : EntryPoint(kind)
-        \/ \E o \in 1..MaxObjs : Copy(o)
-        \/ \E t \in Threads : StepParse(t) \/ StepMandatory(t) \/ StepFill(t) \/ \E k \in 4..6 : StepScore(t, k)
-        \/ \E o \in 1..MaxObjs, acc \in Accessors : Call(o, acc)
+\* ---- an accessor call by a thread, in two steps: another thread can get in between (two users of one object), and an exception
+\* from outside (Ctrl-C, a timeout) can cut it short.  The real objects keep no memo; the buggy variant publishes one early.
+CallBegin(t, o, acc) == /\ thr[t].pc = 0 /\ inacc[t] = <<>> /\ o \in 1..Len(heap) /\ acc \in Accessors /\ ncalls < MaxCalls
+                        /\ inacc' = [inacc EXCEPT ![t] = <<o, acc>>]
+                        /\ memo' = IF BugMemoPublishedEarly /\ memo[o] = <<"none">> THEN [memo EXCEPT ![o] = <<"partial", t>>] ELSE memo
+                        /\ ncalls' = ncalls + 1 /\ UNCHANGED <<heap, thr, shared, cache, globals, out, last, poisoned>>
+CallEnd(t) == /\ inacc[t] # <<>>
+              /\ LET o == inacc[t][1]  acc == inacc[t][2]
+                     mine == memo[o] = <<"partial", t>>
+                     torn == BugMemoPublishedEarly /\ memo[o] \notin {<<"none">>, <<"full">>} /\ ~mine
+                 IN /\ last' = <<"call", o, acc, IF torn THEN <<"torn">> ELSE Result(acc, heap[o])>>
+                    /\ memo' = IF mine THEN [memo EXCEPT ![o] = <<"full">>] ELSE memo
+              /\ inacc' = [inacc EXCEPT ![t] = <<>>]
+              /\ UNCHANGED <<heap, thr, shared, cache, globals, out, ncalls, poisoned>>
+\* ---- a call (construction or accessor) broken off by an exception that is not the library's: no result, nothing left behind
+Abort(t) == /\ (inacc[t] # <<>> \/ thr[t].pc # 0)
+            /\ inacc' = [inacc EXCEPT ![t] = <<>>]
+            /\ thr' = [thr EXCEPT ![t] = Idle]
+            /\ memo' = [o \in 1..MaxObjs |-> IF memo[o] = <<"partial", t>> THEN <<"partial", "nobody">> ELSE memo[o]]
+            /\ last' = <<"aborted", t>>
+            /\ UNCHANGED <<heap, shared, cache, globals, out, ncalls, poisoned>>
+\* ---- a complete construction by a caller that works under a decimal context of its own (a few digits): what it gets is its own
+\* business (no object enters the heap of judged objects), but the call is part of the history of the process
+LowPrecConstruct(i) == /\ ncalls < MaxCalls /\ ~Malformed(i)
+                       /\ poisoned' = IF BugCacheIgnoresContext THEN poisoned \cup {i} ELSE poisoned
+                       /\ last' = <<"lowprec", i>> /\ ncalls' = ncalls + 1
+                       /\ UNCHANGED <<heap, thr, shared, cache, globals, out, memo, inacc>>
+OldNext == \/ \E t \in Threads, i \in Inputs : Begin(t, i)
+           \/ \E kind \in EntryPoints : EntryPoint(kind)
+           \/ \E o \in 1..MaxObjs : Copy(o)
+           \/ \E t \in Threads : StepParse(t) \/ StepMandatory(t) \/ StepFill(t) \/ \E k \in 4..6 : StepScore(t, k)
+           \/ \E o \in 1..MaxObjs, acc \in Accessors : Call(o, acc)
+NewNext == \/ \E t \in Threads, o \in 1..MaxObjs, acc \in Accessors : CallBegin(t, o, acc)
+           \/ \E t \in Threads : CallEnd(t) \/ Abort(t)
+           \/ \E i \in Inputs : LowPrecConstruct(i)
+Next == (OldNext /\ UNCHANGED xvars) \/ NewNext
 Spec == Init /\ [][Next]_vars
 \* ---- properties -----------------------------------------------------------------------------------
 RefFilled(i) == Filled(Parsed(i))
